@@ -52,6 +52,9 @@ type failRec struct {
 	size     int
 }
 
+// ModelReports prefixes the expected output of a line that only the model answers; the rest is the required prefix of its answer
+const ModelReports = "?"
+
 type mismatchRec struct {
 	Lines    []string `json:"lines"`
 	Readable []string `json:"readable"`
@@ -79,6 +82,7 @@ type Ctx struct {
 	samples     []interface{}
 	fails       map[string]*failRec
 	mismatches  int
+	reportSamples []interface{}
 	firstMis    *mismatchRec
 	batch       []pending
 	batchLines  int
@@ -260,6 +264,24 @@ func (c *Ctx) flush() {
 	k := 0
 	for _, p := range c.batch {
 		for i := range p.lines {
+			if strings.HasPrefix(p.impl[i], ModelReports) {
+				// a line only the model answers: the answer must have the announced form and is counted as a feature
+				if want := p.impl[i][len(ModelReports):]; strings.HasPrefix(model[k+i], want) {
+					key := "model-reports:" + model[k+i]
+					if c.features[key] == 0 && len(c.reportSamples) < 6 {
+						// the first case of every kind of answer is kept as a sample (source lines only)
+						var src []string
+						for _, l := range readableAll(p.lines) {
+							if strings.Contains(l, "\tsrc\t") || strings.Contains(l, " src ") {
+								src = append(src, Trunc(l, 600))
+							}
+						}
+						c.reportSamples = append(c.reportSamples, map[string]interface{}{"model_reports": model[k+i], "sources": src})
+					}
+					c.features[key]++
+					continue
+				}
+			}
 			if model[k+i] != p.impl[i] {
 				c.mismatches++
 				sz := sizeOf(p.lines)
@@ -298,7 +320,7 @@ func (c *Ctx) finish() {
 	c.flush()
 	p := Partial{Property: c.Prop, Variant: c.Variant, Tier: c.Tier, Seed: c.Seed,
 		Evaluations: c.evaluations, Distinct: len(c.nontrivial), ModelLines: c.modelLines,
-		Features: c.features, Samples: c.samples, Mismatches: c.mismatches, FirstMismatch: c.firstMis,
+		Features: c.features, Samples: append(c.samples, c.reportSamples...), Mismatches: c.mismatches, FirstMismatch: c.firstMis,
 		SelfCheck: c.selfErrs, DriverError: c.driverErr, WallS: time.Since(c.start).Seconds()}
 	sigs := make([]string, 0, len(c.fails))
 	for s := range c.fails {
